@@ -208,7 +208,10 @@ def setupFromFile(foldername, constantFile: str = None, **kwargs):
     else:
         list_of_files = glob("{0}/grid_*".format(foldername))
         if (len(list_of_files) > 0):
-            filename = max(list_of_files)
+            # The latest checkpoint is the one with the largest time (the
+            # names are only ordered like the times up to 6 digits)
+            filename = max(list_of_files,
+                           key=lambda f: int(f.split('_')[-1].split('.')[0]))
             t = int(filename.split('_')[-1].split('.')[0])
         else:
             filename = None
